@@ -201,7 +201,15 @@ func runFxOwn(m *model.Model, s *ob.Set) {
 					if strings.HasPrefix(l, "P") && strings.HasSuffix(l, ".mant") {
 						var k int
 						fmt.Sscanf(l, "P%d", &k)
-						return owner.OnlyParam(k) || (owner.MayBeParam(k) && !owner.Global && !owner.Unknown)
+						if owner.OnlyParam(k) || (owner.MayBeParam(k) && !owner.Global && !owner.Unknown) {
+							return true
+						}
+						// a scratch Decimal of this function that is only ever copied back, whole, into
+						// that same parameter (d := Decimal{mant: z.mant, ...}; ...; *z = d)
+						if al, isLocal := fa.X.(*ssa.Alloc); isLocal && localOnlyFlowsTo(m, al, k, 3) {
+							return true
+						}
+						return false
 					}
 					return false
 				}
@@ -303,8 +311,18 @@ func runFxGlobal(m *model.Model, s *ob.Set) {
 					if g := rooted(in.Addr); g != nil {
 						written[g.Name()] = append(written[g.Name()], m.InstrPos(in)+" in "+m.FuncName(fn))
 					}
+				case *ssa.MapUpdate:
+					// cache[key] = v on a package-level map (a memo table filled on demand)
+					if g := rooted(in.Map); g != nil {
+						written[g.Name()] = append(written[g.Name()], m.InstrPos(in)+" in "+m.FuncName(fn)+" (map entry)")
+					}
 				case ssa.CallInstruction:
 					cal, c := model.Callee(in)
+					if bn := model.BuiltinName(c); bn == "delete" && len(c.Args) > 0 {
+						if g := rooted(c.Args[0]); g != nil {
+							written[g.Name()] = append(written[g.Name()], m.InstrPos(in)+" in "+m.FuncName(fn)+" (map entry deleted)")
+						}
+					}
 					for ai, a := range c.Args {
 						// package-level *Decimal (oneHalf, three) passed where the callee writes
 						if m.IsDecPtr(a.Type()) {
@@ -399,7 +417,7 @@ func selfDerivedMant(m *model.Model, v ssa.Value, base ssa.Value) bool {
 	var walk func(v ssa.Value, d int) bool
 	// result idx of a call: follow the callee's return-root summary into the arguments
 	walkCall := func(x *ssa.Call, idx int, d int) bool {
-		cal := x.Call.StaticCallee()
+		cal := model.Unthunk(x.Call.StaticCallee())
 		if cal == nil {
 			if b := model.BuiltinName(&x.Call); b == "append" || b == "make" {
 				for _, a := range x.Call.Args {
@@ -549,4 +567,66 @@ func decOperandFreshAtCallers(m *model.Model, fn *ssa.Function, k int, depth int
 		}
 	}
 	return sites > 0
+}
+
+// localOnlyFlowsTo: the local Decimal al is touched field by field, and as a whole it is only
+// copied into other such locals or into the Decimal parameter k points to; its address goes
+// nowhere else.
+func localOnlyFlowsTo(m *model.Model, al *ssa.Alloc, k int, depth int) bool {
+	if depth == 0 || al.Referrers() == nil || al.Heap {
+		return false
+	}
+	for _, r := range *al.Referrers() {
+		switch x := r.(type) {
+		case *ssa.DebugRef:
+		case *ssa.FieldAddr:
+			if x.Referrers() == nil {
+				continue
+			}
+			for _, u := range *x.Referrers() {
+				switch y := u.(type) {
+				case *ssa.Store:
+					if y.Addr != ssa.Value(x) {
+						return false
+					}
+				case *ssa.UnOp:
+					if y.Op != token.MUL {
+						return false
+					}
+				case *ssa.DebugRef:
+				default:
+					return false
+				}
+			}
+		case *ssa.Store:
+			if x.Addr != ssa.Value(al) {
+				return false
+			}
+		case *ssa.UnOp:
+			if x.Op != token.MUL || x.Referrers() == nil {
+				return false
+			}
+			for _, u := range *x.Referrers() {
+				st, ok := u.(*ssa.Store)
+				if !ok || st.Val != ssa.Value(x) {
+					if _, isDbg := u.(*ssa.DebugRef); isDbg {
+						continue
+					}
+					return false
+				}
+				if al2, ok := st.Addr.(*ssa.Alloc); ok {
+					if al2 != al && !localOnlyFlowsTo(m, al2, k, depth-1) {
+						return false
+					}
+					continue
+				}
+				if !(m.IsDecPtr(st.Addr.Type()) && m.RefOf(st.Addr).OnlyParam(k)) {
+					return false
+				}
+			}
+		default:
+			return false
+		}
+	}
+	return true
 }
